@@ -355,8 +355,12 @@ def run_property(prop, tier='quick', seed=0, only_unit=None, verbose=False):
       'explanation': "each obligation is one (path x clause) verification condition generated from the current source of the listed functions; 'discharged' counts solver answers 'unsat' for (path condition AND NOT clause), plus syntactic call-site facts checked on the AST; bounded_clauses are NOT counted in obligations/discharged",
     },
   }
-  os.makedirs(os.path.join(VERIF, 'evidence'), exist_ok=True)
-  with open(os.path.join(VERIF, 'evidence', prop.pid + '.json'), 'w') as f:
+  # evidence is only written for runs against /repo itself (self-test runs against scratch
+  # copies go to out/)
+  ev_dir = os.path.join(VERIF, 'evidence') if os.path.realpath(REPO) == '/repo' else \
+      os.path.join(VERIF, 'out', 'scratch-evidence')
+  os.makedirs(ev_dir, exist_ok=True)
+  with open(os.path.join(ev_dir, prop.pid + '.json'), 'w') as f:
     json.dump(evidence, f, indent=1, default=str)
 
   for line in known_lines:
